@@ -13,11 +13,21 @@ package c06
 //	    nothing-stored, random-subset, size-mismatch-held-by-backend[@tree-blob];
 //	    over-proxy-limit@<class>: held by the backend only and larger than
 //	    max_proxy_blob_size (worlds ".../proxy-limit-<n>")
+//	    dup-size-mismatch@<class>: the hash is referenced twice, once with the
+//	    right and once with a wrong stated size; absent-but-inlined-elsewhere@file:
+//	    one output file carries the bytes inline, another refers to the same hash
+//	    by digest only and the blob is nowhere
 //	C06:hit-with-missing-blob:intermittent:backend   (the hit does not repeat)
-//	C06:miss-with-all-present:<plan>:<be>  C06:error-with-all-present:<plan>:<be>
 //	C06:error-on-absence:<what>@<class>:<be>  C06:partial-result:<plan>:<be>
+//	C06:hit-with-wrong-inlined-bytes:<plan>:<be>   (gRPC hit, bytes inlined on request are not the referenced blob)
 //	C06:recency:<class>-not-refreshed-by-hit:<query path>:<be>
-//	C06:recency:lookup-evicts:<be>
+//
+// Not judged (the statement is one-directional and silent about them), only
+// counted: a miss / an error while everything is present (converse.*), entries
+// evicted while a hit is served (recency.lookup-evicted-entries.*), lookups of
+// an ActionResult that is itself no longer held (query.*.ac-entry-not-held.*).
+// Transport errors, Unavailable / Canceled / DeadlineExceeded /
+// ResourceExhausted are inconclusive, never verdicts.
 
 import (
 	"bytes"
@@ -223,18 +233,71 @@ type outcome struct {
 	ar     *pb.ActionResult
 }
 
-func (w *world) query(in *instance, path string, jsonAccept bool) outcome {
+// inlineReq is what a gRPC GetActionResult asks to have inlined.
+type inlineReq struct {
+	on             bool // false: a request without any inline field (the plain lookup)
+	stdout, stderr bool
+	files          string // none | all | some | unknown-path
+}
+
+func (q inlineReq) String() string {
+	if !q.on {
+		return "plain"
+	}
+	return fmt.Sprintf("stdout=%v,stderr=%v,files=%s", q.stdout, q.stderr, q.files)
+}
+
+// inlineVariant rotates through the inline-request combinations: variant 0 is
+// the plain request, then the 4 stdout/stderr combinations x inline_output_files
+// in {none, all, some, a path the result does not have}.
+func inlineVariant(v int) inlineReq {
+	if v < 0 {
+		return inlineReq{}
+	}
+	v %= 13
+	if v == 0 {
+		return inlineReq{}
+	}
+	v--
+	return inlineReq{on: true, stdout: v&1 != 0, stderr: v&2 != 0, files: []string{"all", "some", "none"}[(v/4)%3]}
+}
+
+// transient names answers that say nothing about the property: the transport
+// or the client's own context failed (port exhaustion, reset connection, a
+// watchdog), not the dependency check.
+func transientCode(c codes.Code) bool {
+	switch c {
+	case codes.DeadlineExceeded, codes.Unavailable, codes.Canceled, codes.ResourceExhausted:
+		return true
+	}
+	return false
+}
+
+func (w *world) query(in *instance, path string, jsonAccept bool, inl inlineReq) outcome {
 	switch path {
 	case "grpc":
 		ctx, cancel := lib.Ctx()
 		defer cancel()
-		res, err := w.srv.AC.GetActionResult(ctx, &pb.GetActionResultRequest{ActionDigest: &pb.Digest{Hash: in.key, SizeBytes: in.keySize}})
-		switch lib.Code(err) {
-		case codes.OK:
+		req := &pb.GetActionResultRequest{ActionDigest: &pb.Digest{Hash: in.key, SizeBytes: in.keySize}}
+		if inl.on {
+			req.InlineStdout, req.InlineStderr = inl.stdout, inl.stderr
+			for i, f := range in.ar.OutputFiles {
+				if inl.files == "all" || (inl.files == "some" && i%2 == 0) {
+					req.InlineOutputFiles = append(req.InlineOutputFiles, f.Path)
+				}
+			}
+			if inl.files != "none" {
+				req.InlineOutputFiles = append(req.InlineOutputFiles, "out/no-such-output")
+			}
+		}
+		res, err := w.srv.AC.GetActionResult(ctx, req)
+		c := lib.Code(err)
+		switch {
+		case c == codes.OK:
 			return outcome{Kind: "hit", Detail: "OK", ar: res}
-		case codes.NotFound:
+		case c == codes.NotFound:
 			return outcome{Kind: "miss", Detail: "NotFound"}
-		case codes.DeadlineExceeded:
+		case transientCode(c):
 			return outcome{Kind: "timeout", Detail: err.Error()}
 		}
 		return outcome{Kind: "error", Detail: err.Error()}
@@ -245,14 +308,15 @@ func (w *world) query(in *instance, path string, jsonAccept bool) outcome {
 		}
 		res := w.srv.HTTPGet("/ac/"+in.key, hdr)
 		if res.Err != nil {
-			return outcome{Kind: "error", Detail: "transport: " + res.Err.Error()}
+			return outcome{Kind: "timeout", Detail: "transport: " + res.Err.Error()}
 		}
 		switch res.Status {
 		case 200:
 			ar := &pb.ActionResult{}
 			var err error
 			if res.BodyErr != nil {
-				err = res.BodyErr
+				// the connection broke while the body was read: nothing to judge
+				return outcome{Kind: "timeout", Detail: "transport (body): " + res.BodyErr.Error()}
 			} else if jsonAccept {
 				err = protojson.Unmarshal(res.Body, ar)
 			} else {
@@ -272,7 +336,7 @@ func (w *world) query(in *instance, path string, jsonAccept bool) outcome {
 	default: // http-head
 		res := w.srv.HTTPHead("/ac/" + in.key)
 		if res.Err != nil {
-			return outcome{Kind: "error", Detail: "transport: " + res.Err.Error()}
+			return outcome{Kind: "timeout", Detail: "transport: " + res.Err.Error()}
 		}
 		switch res.Status {
 		case 200:
@@ -307,8 +371,8 @@ func partial(stored, got *pb.ActionResult) string {
 		if g.GetPath() != f.Path || !proto.Equal(g.GetDigest(), f.Digest) {
 			return fmt.Sprintf("output_files[%d] served as %v, stored %s %v", i, g, f.Path, f.Digest)
 		}
-		if len(g.Contents) != 0 && !bytes.Equal(g.Contents, f.Contents) {
-			return fmt.Sprintf("output_files[%d] served with other contents", i)
+		if len(g.Contents) != 0 && len(f.Contents) != 0 && !bytes.Equal(g.Contents, f.Contents) {
+			return fmt.Sprintf("output_files[%d] served with other contents than the stored inline contents", i)
 		}
 	}
 	if len(got.OutputDirectories) != len(stored.OutputDirectories) {
@@ -332,6 +396,55 @@ func partial(stored, got *pb.ActionResult) string {
 	return ""
 }
 
+// inlined judges what a gRPC hit carries inline (only called when a hit was
+// expected, i.e. every stated digest is truthful): bytes inlined for a slot
+// whose stored form is a digest must be the content of that blob. Whether the
+// server inlines at all is C11's business (counted, not judged).
+func (in *instance) inlined(r *lib.Run, got *pb.ActionResult, inl inlineReq) string {
+	byHash := map[string][]byte{}
+	for _, x := range in.refs {
+		byHash[x.Hash] = x.content
+	}
+	check := func(cls, where string, raw, storedRaw []byte, dg *pb.Digest, asked bool) string {
+		if len(storedRaw) != 0 || dg == nil || dg.SizeBytes == 0 {
+			return ""
+		}
+		want, known := byHash[dg.Hash]
+		if !known {
+			return ""
+		}
+		a := "not-asked"
+		if asked {
+			a = "asked"
+		}
+		if len(raw) == 0 {
+			r.Count("inline." + a + "." + cls + ".served-as-digest")
+			return ""
+		}
+		r.Count("inline." + a + "." + cls + ".served-inline")
+		if !bytes.Equal(raw, want) {
+			return fmt.Sprintf("%s: %d bytes served inline are not the content of the referenced blob %s/%d", where, len(raw), dg.Hash[:12], dg.SizeBytes)
+		}
+		return ""
+	}
+	asked := map[string]bool{}
+	for i, f := range in.ar.OutputFiles {
+		asked[f.Path] = inl.files == "all" || (inl.files == "some" && i%2 == 0)
+	}
+	for i, f := range in.ar.OutputFiles {
+		if i >= len(got.OutputFiles) {
+			break
+		}
+		if p := check(clsFile, fmt.Sprintf("output_files[%d]", i), got.OutputFiles[i].GetContents(), f.Contents, f.Digest, asked[f.Path]); p != "" {
+			return p
+		}
+	}
+	if p := check(clsStdout, "stdout_raw", got.StdoutRaw, in.ar.StdoutRaw, in.ar.StdoutDigest, inl.stdout); p != "" {
+		return p
+	}
+	return check(clsStderr, "stderr_raw", got.StderrRaw, in.ar.StderrRaw, in.ar.StderrDigest, inl.stderr)
+}
+
 // absentee describes a referenced blob that is not present with the stated size.
 type absentee struct {
 	need
@@ -344,12 +457,34 @@ type absentee struct {
 // member of R is present with the stated size locally or in the backend (the
 // empty blob is always present).
 func (w *world) expectation(in *instance) (hit bool, missing []absentee) {
+	hit, missing, _ = w.expectationAC(in)
+	return hit, missing
+}
+
+// expectationAC additionally observes whether the ActionResult itself is
+// still held (index snapshot, or the backend): the statement speaks about
+// answers for a STORED ActionResult; once the entry itself has been evicted a
+// miss is the only possible answer and nothing is judged.
+func (w *world) expectationAC(in *instance) (hit bool, missing []absentee, acHeld bool) {
 	ns := in.needs()
 	hashes := map[string]bool{}
 	for _, n := range ns {
 		hashes[n.Hash] = true
 	}
-	local := w.localSizes(hashes)
+	s := lib.Snapshot(w.srv.Cache)
+	local := map[string]int64{}
+	for _, e := range s.Entries {
+		if strings.HasPrefix(e.Key, "cas/") {
+			if h := e.Key[4:]; hashes[h] {
+				local[h] = e.Size
+			}
+		} else if e.Key == "ac/"+in.key {
+			acHeld = true
+		}
+	}
+	if !acHeld && w.fp != nil && w.fp.Has(cache.AC, in.key) {
+		acHeld = true
+	}
 	for _, n := range ns {
 		if n.Hash == lib.EmptySha256 && n.Stated == 0 {
 			continue
@@ -382,7 +517,7 @@ func (w *world) expectation(in *instance) (hit bool, missing []absentee) {
 		}
 		missing = append(missing, a)
 	}
-	return len(missing) == 0, missing
+	return len(missing) == 0, missing, acHeld
 }
 
 type caseInfo struct {
@@ -414,25 +549,35 @@ func (ci *caseInfo) detail(in *instance, q string, o outcome, missing []absentee
 }
 
 // judge runs one query and compares it with the expectation observed right
-// before it. Returns the outcome kind and whether a hit was expected.
-func (w *world) judge(in *instance, ci *caseInfo, q string, jsonAccept bool) (string, bool) {
+// before it. Returns the outcome kind and whether a hit was expected. inl is
+// the inline request of a gRPC query (ignored by the HTTP paths).
+func (w *world) judge(in *instance, ci *caseInfo, q string, jsonAccept bool, inl inlineReq) (string, bool) {
 	r := w.r
-	expHit, missing := w.expectation(in)
-	o := w.query(in, q, jsonAccept)
+	expHit, missing, acHeld := w.expectationAC(in)
+	o := w.query(in, q, jsonAccept, inl)
 	qn := q
 	if jsonAccept && q == "http-get" {
 		qn = "http-get-json"
 	}
 	if o.Kind == "timeout" {
-		r.Inconclusive(fmt.Sprintf("watchdog on %s for case %s: %s", qn, ci.ID, o.Detail))
+		r.Inconclusive(fmt.Sprintf("transport trouble / watchdog on %s for case %s: %s", qn, ci.ID, o.Detail))
 		return o.Kind, expHit
+	}
+	be := w.beLabel()
+	if !acHeld {
+		// the ActionResult itself is gone (evicted by the history): not a subject of the statement any more
+		r.Count(fmt.Sprintf("query.%s.%s.ac-entry-not-held.%s", be, qn, o.Kind))
+		return o.Kind, false
 	}
 	r.Eval()
 	exp := "miss"
 	if expHit {
 		exp = "hit"
 	}
-	r.Count(fmt.Sprintf("query.%s.%s.expected-%s.%s", w.beLabel(), qn, exp, o.Kind))
+	r.Count(fmt.Sprintf("query.%s.%s.expected-%s.%s", be, qn, exp, o.Kind))
+	if q == "grpc" {
+		r.Count(fmt.Sprintf("query.grpc-inline.%s.expected-%s.%s", inl, exp, o.Kind))
+	}
 	culprit := ci.culprit
 	if !expHit && culprit == "" {
 		culprit = "absent@" + missing[0].Class
@@ -440,7 +585,14 @@ func (w *world) judge(in *instance, ci *caseInfo, q string, jsonAccept bool) (st
 			culprit = "over-proxy-limit@" + missing[0].Class
 		}
 	}
-	be := w.beLabel()
+	if !expHit {
+		// which culprit classes were actually put before the dependency check (required observations)
+		r.Count("judged." + be + "." + culprit)
+		r.Count("judged.class." + strings.TrimSuffix(culprit, ":beyond-first-20"))
+		if strings.HasSuffix(culprit, ":beyond-first-20") {
+			r.Count("judged.beyond-first-20." + be)
+		}
+	}
 	switch {
 	case expHit && o.Kind == "hit":
 		if q != "http-head" {
@@ -448,16 +600,21 @@ func (w *world) judge(in *instance, ci *caseInfo, q string, jsonAccept bool) (st
 				r.Violation(fmt.Sprintf("C06:partial-result:%s:%s", ci.Plan, be), fmt.Sprintf("%s answered a hit but %s", qn, o.Detail), ci.detail(in, qn, o, nil))
 			} else if p := partial(in.ar, o.ar); p != "" {
 				r.Violation(fmt.Sprintf("C06:partial-result:%s:%s", ci.Plan, be), fmt.Sprintf("%s answered a hit with a partial result: %s", qn, p), ci.detail(in, qn, o, nil))
+			} else if q == "grpc" {
+				if p := in.inlined(r, o.ar, inl); p != "" {
+					d := ci.detail(in, qn, o, nil)
+					d["inline_request"] = inl.String()
+					r.Violation(fmt.Sprintf("C06:hit-with-wrong-inlined-bytes:%s:%s", ci.Plan, be), fmt.Sprintf("%s (%s) answered a hit whose inlined bytes are not the referenced blob: %s", qn, inl, p), d)
+				}
 			}
 		}
-	case expHit && o.Kind == "miss":
-		r.Violation(fmt.Sprintf("C06:miss-with-all-present:%s:%s", ci.Plan, be),
-			fmt.Sprintf("%s answered a miss (%s) although every referenced blob is present with the stated size (plan %s, %s, AR uploaded via %s)", qn, o.Detail, ci.Plan, ci.Shape, ci.Upload),
-			ci.detail(in, qn, o, nil))
-	case expHit && o.Kind == "error":
-		r.Violation(fmt.Sprintf("C06:error-with-all-present:%s:%s", ci.Plan, be),
-			fmt.Sprintf("%s failed (%s) although every referenced blob is present with the stated size (plan %s, %s)", qn, o.Detail, ci.Plan, ci.Shape),
-			ci.detail(in, qn, o, nil))
+	case expHit && (o.Kind == "miss" || o.Kind == "error"):
+		// The statement is one-directional ("a hit only if ..."): a miss or a
+		// failure while everything is present does not refute it (and may have
+		// environmental causes). Recorded, not judged; the run is inconclusive
+		// when a query path never produced an expected hit at all.
+		r.Count(fmt.Sprintf("converse.%s-with-all-present.%s.%s", o.Kind, be, qn))
+		r.Sample(map[string]any{"observation": o.Kind + " while every referenced blob is present", "case": ci.ID, "plan": ci.Plan, "query": qn, "answer": o.Detail})
 	case !expHit && o.Kind == "hit":
 		// Ask again: an answer that does not repeat is its own class of finding
 		// (a race inside the dependency check), a repeatable one names the input.
@@ -465,7 +622,7 @@ func (w *world) judge(in *instance, ci *caseInfo, q string, jsonAccept bool) (st
 		if w.hasBackend() {
 			for again < 20 {
 				again++
-				if w.query(in, q, jsonAccept).Kind == "hit" {
+				if w.query(in, q, jsonAccept, inl).Kind == "hit" {
 					hitsAgain++
 				}
 			}
@@ -477,15 +634,19 @@ func (w *world) judge(in *instance, ci *caseInfo, q string, jsonAccept bool) (st
 				ci.detail(in, qn, o, missing))
 			break
 		}
+		d := ci.detail(in, qn, o, missing)
+		d["inline_request"] = inl.String()
 		r.Violation(fmt.Sprintf("C06:hit-with-missing-blob:%s:%s", culprit, be),
 			fmt.Sprintf("%s answered a hit (%s) while %d referenced blob(s) are not present with the stated size, first: %s %s (%s, stated size %d); target %q; %d of %d repetitions hit again",
 				qn, o.Detail, len(missing), missing[0].Class, missing[0].Where, missing[0].Hash[:12], missing[0].Stated, ci.Target, hitsAgain, again),
-			ci.detail(in, qn, o, missing))
+			d)
 	case !expHit && o.Kind == "error":
+		d := ci.detail(in, qn, o, missing)
+		d["inline_request"] = inl.String()
 		r.Violation(fmt.Sprintf("C06:error-on-absence:%s:%s", culprit, be),
-			fmt.Sprintf("%s answered with an error (%s) instead of a miss; the only thing wrong is %d referenced blob(s) not present with the stated size, first: %s %s",
-				qn, o.Detail, len(missing), missing[0].Class, missing[0].Where),
-			ci.detail(in, qn, o, missing))
+			fmt.Sprintf("%s (%s) answered with an error (%s) instead of a miss; the only thing wrong is %d referenced blob(s) not present with the stated size, first: %s %s",
+				qn, inl, o.Detail, len(missing), missing[0].Class, missing[0].Where),
+			d)
 	}
 	return o.Kind, expHit
 }
@@ -494,9 +655,65 @@ func (w *world) judge(in *instance, ci *caseInfo, q string, jsonAccept bool) (st
 // Presence plans.
 
 type plan struct {
-	name   string // all-local | none | one-missing | one-mismatch | all-backend | mixed-present | mixed-one-missing | one-mismatch-backend | random | backend-ac-*
+	name   string // all-local | none | one-missing | one-mismatch | all-backend | mixed-present | mixed-one-missing | one-mismatch-backend | random | backend-ac-* | dup-mismatch | inline+digest-same-hash
 	target int    // reference index (construction order), -1 none
 	label  string // position label of the target
+	sh     *shape // non-nil: the plan runs on this variant of the shape (a forced duplicate reference)
+}
+
+// dupPlans: one hash referenced twice. "dup-mismatch": the two references
+// state DIFFERENT sizes (one right, one wrong: the first resp. the second
+// occurrence), across output files / Tree files / stdout and across the
+// batches of 20. "inline+digest-same-hash": one output file carries the bytes
+// inline (no reference), another refers to the same hash by digest only, and
+// the blob is nowhere.
+func dupPlans(sh *shape, shapeI int, rng *rand.Rand) []plan {
+	var ps []plan
+	for vi, variant := range []string{"file+file", "file+tree-file", "file+stdout"} {
+		v, _, ok := forceDup(sh, variant, rng)
+		if !ok {
+			continue
+		}
+		probe := build(v, "probe", rand.New(rand.NewPCG(3, uint64(shapeI))), -1, nil)
+		// the occurrences of the shared hash, in construction order
+		count := map[string][]int{}
+		for i, x := range probe.refs {
+			if !x.Empty {
+				count[x.Hash] = append(count[x.Hash], i)
+			}
+		}
+		var occ []int
+		for i, x := range probe.refs {
+			if o := count[x.Hash]; len(o) > 1 && o[0] == i {
+				// the forced pair spans two classes unless the variant is file+file
+				a, b := probe.refs[o[0]].Class, probe.refs[o[len(o)-1]].Class
+				if (variant == "file+file") == (a == b) {
+					occ = o
+					break
+				}
+			}
+		}
+		if len(occ) < 2 {
+			continue
+		}
+		which := (shapeI + vi) % 2
+		t := occ[0]
+		pos := "first"
+		if which == 1 {
+			t, pos = occ[len(occ)-1], "second"
+		}
+		ps = append(ps, plan{name: "dup-mismatch", target: t, label: variant + ":" + pos + "-occurrence-misstated:" + probe.refs[t].Class, sh: v})
+	}
+	if v, _, ok := forceInlineDup(sh, rng); ok {
+		probe := build(v, "probe", rand.New(rand.NewPCG(4, uint64(shapeI))), -1, nil)
+		for i, x := range probe.refs {
+			if _, isInline := probe.inline[x.Hash]; isInline && x.Class == clsFile {
+				ps = append(ps, plan{name: "inline+digest-same-hash", target: i, label: "file", sh: v})
+				break
+			}
+		}
+	}
+	return ps
 }
 
 // targets lists the structural positions of a shape instance at which exactly
@@ -666,6 +883,11 @@ func place(in *instance, p plan, backend bool, limit int64, rng *rand.Rand) map[
 		switch p.name {
 		case "all-local", "one-missing", "one-mismatch":
 			v = plLocal
+		case "dup-mismatch", "inline+digest-same-hash":
+			v = plLocal
+			if backend {
+				v = present()
+			}
 		case "none":
 			v = plAbsent
 		case "all-backend":
@@ -692,7 +914,7 @@ func place(in *instance, p plan, backend bool, limit int64, rng *rand.Rand) map[
 		}
 		pl[r.Hash] = v
 	}
-	if p.target >= 0 && (p.name == "one-missing" || p.name == "mixed-one-missing" || p.name == "backend-ac-one-missing") {
+	if p.target >= 0 && (p.name == "one-missing" || p.name == "mixed-one-missing" || p.name == "backend-ac-one-missing" || p.name == "inline+digest-same-hash") {
 		pl[in.refs[p.target].Hash] = plAbsent
 	}
 	return pl
@@ -731,7 +953,7 @@ func (w *world) runJob(j job) {
 	rng := rand.New(rand.NewPCG(j.seed, uint64(j.idx)*2654435761+17))
 	tag := fmt.Sprintf("C06-s%d-j%d", r.Seed, j.idx)
 	mis := -1
-	if j.plan.name == "one-mismatch" || j.plan.name == "one-mismatch-backend" {
+	if j.plan.name == "one-mismatch" || j.plan.name == "one-mismatch-backend" || j.plan.name == "dup-mismatch" {
 		mis = j.plan.target
 	}
 	// plans about max_proxy_blob_size fix the size of the target blob: one
@@ -784,6 +1006,11 @@ func (w *world) runJob(j job) {
 		ci.culprit = "absent@" + cls
 	case "one-mismatch":
 		ci.culprit = "size-mismatch@" + cls
+	case "dup-mismatch":
+		// the same hash is also referenced with the right size elsewhere in the result
+		ci.culprit = "dup-size-mismatch@" + cls
+	case "inline+digest-same-hash":
+		ci.culprit = "absent-but-inlined-elsewhere@" + cls
 	case "one-mismatch-backend":
 		// one key for the whole family: the blob exists in the backend under
 		// this hash with another size (the Tree blob is read, not probed: own key)
@@ -837,7 +1064,13 @@ func (w *world) runJob(j job) {
 	anyHit, anyMiss := false, false
 	for k := 0; k < 3; k++ {
 		q := queryPaths[(k+rot)%3]
-		kind, _ := w.judge(in, ci, q, q == "http-get" && j.idx%2 == 1)
+		// gRPC lookups rotate through the inline-request combinations (plain, stdout/stderr, all / some / no output files)
+		// (every other case: inlining reads every blob, and stores the ones only the backend holds, one fsync each)
+		inl := inlineReq{}
+		if j.idx%2 == 0 {
+			inl = inlineVariant(1 + (j.idx/2)%12)
+		}
+		kind, _ := w.judge(in, ci, q, q == "http-get" && j.idx%2 == 1, inl)
 		anyHit = anyHit || kind == "hit"
 		anyMiss = anyMiss || kind == "miss"
 		r.Distinct(w.cfg, ci.Upload, q, j.plan.name, j.plan.label, bucket(len(j.shape.files)), len(j.shape.trees), kind)
@@ -936,6 +1169,24 @@ func run(r *lib.Run) {
 		probe := build(sh, "probe", rand.New(rand.NewPCG(1, uint64(i))), -1, nil)
 		for _, p := range plansFor(probe, cfgs[cfg].backend, rng, r.Quick) {
 			jobs = append(jobs, job{idx: len(jobs), shape: sh, shapeI: i, plan: p, seed: rng.Uint64(), cfg: cfg})
+		}
+	}
+	// One hash referenced twice (own PRNG stream: the case list above does not depend on it).
+	drng := r.Rng("dup-plans")
+	for i := 0; i < nShapes; i++ {
+		var sh *shape
+		cfg := 0
+		for _, j := range jobs {
+			if j.shapeI == i {
+				sh, cfg = j.shape, j.cfg
+				break
+			}
+		}
+		if sh == nil {
+			continue
+		}
+		for _, p := range dupPlans(sh, i, drng) {
+			jobs = append(jobs, job{idx: len(jobs), shape: p.sh, shapeI: i, plan: p, seed: drng.Uint64(), cfg: cfg})
 		}
 	}
 	nGeneral := len(jobs)
@@ -1040,6 +1291,31 @@ func run(r *lib.Run) {
 		}
 	}
 	need = append(need, "limit.answers.over-limit-backend.miss", "limit.answers.at-limit-backend.hit", "limit.answers.over-limit-local.hit")
+	if part == "" {
+		// Every class of culprit the statement names must have been the thing
+		// wrong in at least one judged lookup (with and without a backend), every
+		// inline-request combination must have met an expected hit and an
+		// expected miss, and the history / ordering parts must have run.
+		for _, be := range []string{"backend", "nobackend"} {
+			for _, c := range []string{clsFile, clsTreeBlob, clsTreeRoot, clsTreeChild, clsStdout, clsStderr} {
+				need = append(need, "judged."+be+".absent@"+c)
+			}
+			need = append(need, "judged."+be+".size-mismatch@"+clsFile, "judged."+be+".size-mismatch@"+clsTreeBlob,
+				"judged."+be+".dup-size-mismatch@"+clsFile, "judged."+be+".nothing-stored", "judged.beyond-first-20."+be,
+				"plan."+be+".inline+digest-same-hash")
+		}
+		for _, c := range []string{clsFile, clsTreeRoot, clsTreeChild, clsStdout, clsStderr} {
+			need = append(need, "judged.class.size-mismatch@"+c)
+		}
+		need = append(need, "judged.class.dup-size-mismatch@"+clsStdout, "judged.class.evicted@"+clsFile,
+			"judged.backend.size-mismatch-held-by-backend", "plan.backend.backend-ac-all-present", "plan.backend.backend-ac-one-missing",
+			"hit.with-inline-files-whose-blobs-are-absent", "recency.refresh-decisive.more-than-20-references", "recency.hit.backend",
+			"concurrent.ordered.miss-first.expected-miss.miss", "concurrent.ordered.miss-last.expected-miss.miss", "concurrent.ordered.all-present-delayed.expected-hit.hit",
+			"inline.asked.file.served-inline", "inline.asked.stdout.served-inline", "inline.asked.stderr.served-inline")
+		for v := 1; v <= 12; v++ {
+			need = append(need, fmt.Sprintf("query.grpc-inline.%s.expected-hit.hit", inlineVariant(v)), fmt.Sprintf("query.grpc-inline.%s.expected-miss.miss", inlineVariant(v)))
+		}
+	}
 	if r.Violations() == 0 {
 		sort.Strings(need)
 		for _, k := range need {
